@@ -715,4 +715,57 @@ def r_c17(p):
     return res
 
 
-HANDLERS = {"c17": r_c17, "c08": r_c08, "c10": r_c10, "c11": r_c11, "c15": r_c15, "c12": r_c12, "c12_raw": r_c12_raw, "c18": r_c18, "parse_step": r_parse_step, "parse_pre": r_parse_pre, "mandatory": r_mandatory, "parse_comm": r_parse_comm, "relational": r_relational, "c09": r_c09, "macrovector4": r_macrovector4, "c07_single": r_c07_single, "c07_pair": r_c07_pair, "c07_foreign": r_c07_foreign}
+def _c13_check(text, expect_vectors=None):
+    from cvss.parser import parse_cvss_from_text
+    from spec import grammar
+
+    probs = []
+    try:
+        res = parse_cvss_from_text(text)
+    except Exception as e:  # noqa: BLE001
+        return ["parse_cvss_from_text raises %s: %s" % (type(e).__name__, e)]
+    for i, a in enumerate(res):
+        ver = {"CVSS2": 2, "CVSS3": 3, "CVSS4": 4}.get(type(a).__name__)
+        if ver is None or not isinstance(a.vector, str) or a.vector not in text or not grammar.is_valid(ver, a.vector):
+            probs.append("returned %s built from %r, which is not a valid vector of that version occurring in the text" % (type(a).__name__, getattr(a, "vector", None)))
+        for b in res[i + 1:]:
+            if a == b:
+                probs.append("two equal objects returned (%r, %r)" % (a.vector, b.vector))
+    for v, ver in expect_vectors or []:
+        cls = _cls(ver)
+        if not any(isinstance(o, cls) and o == cls(v) for o in res):
+            probs.append("the delimited valid vector %r is not returned" % v)
+    return probs
+
+
+def r_c13(p):
+    from spec import grammar
+
+    cands = p["candidates"]
+    text = "Advisory: " + " ; ".join(cands) + " (end)"
+    exp = []
+    for c in cands:
+        if grammar.is_valid(3, c):
+            exp.append((c, 3))
+        elif grammar.is_valid(2, c):
+            exp.append((c, 2))
+    probs = _c13_check(text, exp)
+    return {"violates": bool(probs), "text": text, "problems": probs[:4]}
+
+
+def r_c13_text(p):
+    probs = _c13_check(p["text"], [(p["vector"], p["version"])])
+    return {"violates": bool(probs), "text": p["text"], "problems": probs[:4]}
+
+
+def r_c13_except(p):
+    # a constructor error escaping: probe the real function with many malformed candidates
+    texts = ["CVSS:3.1/AV:N/AC:L/PR:N/UI:N/S:U/C:H/I:H", "CVSS:3.1/AV:N/AC:L/PR:N/UI:N/S:Z/C:H/I:H/A:H", "AV:N/AC:L/Au:N/C:P/I:P/E:F/RL:OF", "AV:N/AC:L/Au:N/C:P/I:P/A:Z/E:ND",
+             "CVSS:3.1/AV:N/AC:L/PR:N/UI:N/S:U/C:H/I:H/A:H/MPR:Q", "CVSS:3.7/AV:N/AC:L/PR:N/UI:N/S:U/C:H/I:H/A:H", "thisisalongwordwithoutanycolonsorslashes"]
+    probs = []
+    for t in texts:
+        probs += _c13_check("x " + t + " y")
+    return {"violates": bool(probs), "problems": probs[:4]}
+
+
+HANDLERS = {"c13": r_c13, "c13_text": r_c13_text, "c13_except": r_c13_except, "c17": r_c17, "c08": r_c08, "c10": r_c10, "c11": r_c11, "c15": r_c15, "c12": r_c12, "c12_raw": r_c12_raw, "c18": r_c18, "parse_step": r_parse_step, "parse_pre": r_parse_pre, "mandatory": r_mandatory, "parse_comm": r_parse_comm, "relational": r_relational, "c09": r_c09, "macrovector4": r_macrovector4, "c07_single": r_c07_single, "c07_pair": r_c07_pair, "c07_foreign": r_c07_foreign}
